@@ -196,7 +196,8 @@ def get_smallmij(vi: np.ndarray, vj: np.ndarray, W: np.ndarray, alpha_vec: np.nd
     """
     prod = np.matmul(W, vj - vi)
     prod[prod < 0] = 0
-    smallmij = (prod / alpha_vec).min()
+    # alpha_vec has shape (n_constraint, 1): divide each facet's product by that facet's own alpha.
+    smallmij = (prod / np.asarray(alpha_vec).reshape(-1)).min()
 
     return smallmij
 
